@@ -93,6 +93,45 @@ def run(ctx):
     if sorted(STEPS_BY_ID.keys()) != sorted(PUBLISHED):
         ctx.violation("registry", "the step registry does not hold exactly the eight published step types",
                       {"registry": sorted(STEPS_BY_ID.keys())})
+    # the registry as a peer sees it: a fresh interpreter that imports only the public package and decodes each published
+    # step type from JSON before having created any step itself (a registration that happens lazily, on first local use,
+    # would be invisible to this process, which has long imported every step module)
+    import subprocess
+    import sys as _sys
+    probe = (
+        "import json, sys\n"
+        "sys.path.insert(0, %r)\n"
+        "import prosemirror.transform as T\n"
+        "from prosemirror.transform.step import STEPS_BY_ID, Step\n"
+        "from prosemirror.schema.basic import schema\n"
+        "out = {'registry': sorted(STEPS_BY_ID)}\n"
+        "mark = {'type': 'em'}\n"
+        "samples = {'replace': {'stepType': 'replace', 'from': 1, 'to': 1},\n"
+        "  'replaceAround': {'stepType': 'replaceAround', 'from': 0, 'to': 2, 'gapFrom': 1, 'gapTo': 1, 'insert': 0},\n"
+        "  'addMark': {'stepType': 'addMark', 'mark': mark, 'from': 1, 'to': 2}, 'removeMark': {'stepType': 'removeMark', 'mark': mark, 'from': 1, 'to': 2},\n"
+        "  'addNodeMark': {'stepType': 'addNodeMark', 'pos': 0, 'mark': mark}, 'removeNodeMark': {'stepType': 'removeNodeMark', 'pos': 0, 'mark': mark},\n"
+        "  'attr': {'stepType': 'attr', 'pos': 0, 'attr': 'level', 'value': 2}, 'docAttr': {'stepType': 'docAttr', 'attr': 'x', 'value': 1}}\n"
+        "dec = {}\n"
+        "for k, j in samples.items():\n"
+        "    try:\n"
+        "        st = Step.from_json(schema, json.loads(json.dumps(j)))\n"
+        "        dec[k] = [type(st).__name__, st.to_json().get('stepType')]\n"
+        "    except Exception as e:\n"
+        "        dec[k] = ['ERR', type(e).__name__ + ': ' + str(e)[:80]]\n"
+        "out['decoded'] = dec\n"
+        "print(json.dumps(out))\n") % core.REPO
+    pr = subprocess.run([_sys.executable, "-c", probe], capture_output=True, text=True, timeout=60)
+    try:
+        fresh = json.loads(pr.stdout.strip().splitlines()[-1])
+    except Exception:  # noqa: BLE001
+        fresh = {"registry": None, "decoded": {}, "stderr": pr.stderr[-300:]}
+    ctx.count("fresh-interpreter-registry-probe")
+    expected_cls = {"replace": "ReplaceStep", "replaceAround": "ReplaceAroundStep", "addMark": "AddMarkStep", "removeMark": "RemoveMarkStep",
+                    "addNodeMark": "AddNodeMarkStep", "removeNodeMark": "RemoveNodeMarkStep", "attr": "AttrStep", "docAttr": "DocAttrStep"}
+    bad_fresh = {k: v for k, v in (fresh.get("decoded") or {}).items() if v != [expected_cls.get(k), k]}
+    if fresh.get("registry") != sorted(PUBLISHED) or bad_fresh or len(fresh.get("decoded") or {}) != 8:
+        ctx.violation("registry", "a process that only imported the package cannot decode every built-in step type by its published name",
+                      {"fresh_interpreter": fresh, "wrong": bad_fresh})
     # the registry refuses a second registration of a published name, and decoding refuses what is not a step:
     # every such input must end in a ValueError-family exception (never an internal error, never a step)
     from prosemirror.transform.step import Step, step_json_id
